@@ -22,7 +22,22 @@ ASSUMPTIONS = [
     'Python set iteration order does not reach any result: every QubitOperator(term) sorts its factors stably and '
     'equal indices only come from different pads (the Model uses sorted lists)',
 ]
-OPEN_STATEMENTS = []
+OPEN_STATEMENTS = [
+    'bk_exact / bk_majorana_exact are proved under the decidable hypothesis "exact regime" (no non-zero value deleted '
+    'by the |v| < EQ_TOLERANCE test of +=), evaluated by the Model on every generated input (distribution key '
+    'theorem-hypothesis exact-regime); the term-level theorems bk_term_exact / bk_majorana_term_exact are unconditional',
+    'bravyi_kitaev_tree (FenwickTree variant): NO theorem (the interval-forest facts for the recursive bisection are '
+    'not proved); covered by exact correspondence of the tree sets and of every ladder image for every n <= 24/40, and '
+    'by the Spec oracles c05.sets_check (tiling / storing sets of the bisection encoding) and c05.bk_check',
+    'srl_sound (_seeley_richard_love(i,j,c,n) denotes c a_i^dagger a_j under the encoding, cases 0-10): NOT proved; '
+    'only srl_cases_exhaustive (no pair i,j < n falls through the elif chain) is a theorem; soundness is covered by '
+    'exact correspondence for ALL i,j < n <= 14/24 (case histogram in the evidence) and the Spec oracle for n <= 8',
+    'bk_interaction_sound (the InteractionOperator path, cases A-D, equals the FermionOperator path, also for '
+    'n_qubits above the tensor size): NOT proved; correspondence + Spec oracle against the tensor formula + exact '
+    'comparison with bravyi_kitaev(get_fermion_operator(.), n_qubits)',
+    'CAR / diagonal number operators / vacuum / isospectrality with JW are consequences of bk_term_exact + '
+    'bk_enc_injective in the Spec semantics (Spec CAR lemmas live with C01/C07); not restated here',
+]
 
 
 class Batch:
@@ -311,7 +326,8 @@ def stream_random(ctx):
         jQ = enc_op('qubit', Q.terms)
         n = size if nq is None else nq
         b.add('bravyi_kitaev(MajoranaOperator)', case, jQ, {'op': 'c05.majorana', 'n': n, 'A': jM},
-              oracle('bk', 'majorana', n, ['op', jM], jQ) if n <= 9 else None)
+              oracle('bk', 'majorana', n, ['op', jM], jQ) if n <= 9 else None,
+              regime_req={'op': 'c05.majorana_ok', 'n': n, 'A': jM})
         # the MajoranaOperator path agrees with the FermionOperator path
         ok, QF = call(st, 'bk(get_fermion_operator(M))', case,
                       lambda: of.transforms.bravyi_kitaev(of.transforms.get_fermion_operator(M), n))
